@@ -211,11 +211,14 @@ Record st := {
                                    value stored IN the session, which two sessions can share *)
   attr_of : Nmap bytes;         (* uid -> that session object's current Username field *)
   pend    : list sess;          (* handlePADR invocations between allocateSessionID and addToIndexes *)
+  preq    : list N;             (* uids of session objects with an AAA request outstanding (pendingAuthRequestID) *)
+  gone    : list N;             (* uids of session objects in PhaseTerminate (torn down; the object may still be
+                                   referenced by a queued dataplane callback or an AAA answer) *)
   next    : N;                  (* c.nextSessionID, uint16 *)
   ctr     : N                   (* number of session objects created so far (object identity) *)
 }.
 Definition st0 : st :=
-  {| by_tup := ∅; by_sid := ∅; by_uidx := ∅; by_attr := ∅; attr_of := ∅; pend := []; next := 1; ctr := 0 |}.
+  {| by_tup := ∅; by_sid := ∅; by_uidx := ∅; by_attr := ∅; attr_of := ∅; pend := []; preq := []; gone := []; next := 1; ctr := 0 |}.
 
 (* the four repairs made to the code during this work, as flags, so that the behaviour before each of them can
    still be stated (the `_refuted` theorems).  Repaired = all of them. *)
@@ -263,18 +266,26 @@ Definition session_key (t : tuple) : list N :=
 
 Definition set_next (s : st) (n : N) : st :=
   {| by_tup := by_tup s; by_sid := by_sid s; by_uidx := by_uidx s; by_attr := by_attr s; attr_of := attr_of s;
-     pend := pend s; next := n; ctr := ctr s |}.
+     pend := pend s; preq := preq s; gone := gone s; next := n; ctr := ctr s |}.
 Definition with_next := set_next.
 Definition bump_ctr (s : st) : st :=
   {| by_tup := by_tup s; by_sid := by_sid s; by_uidx := by_uidx s; by_attr := by_attr s; attr_of := attr_of s;
-     pend := pend s; next := next s; ctr := N.succ (ctr s) |}.
+     pend := pend s; preq := preq s; gone := gone s; next := next s; ctr := N.succ (ctr s) |}.
 Definition set_pend (s : st) (l : list sess) : st :=
   {| by_tup := by_tup s; by_sid := by_sid s; by_uidx := by_uidx s; by_attr := by_attr s; attr_of := attr_of s;
-     pend := l; next := next s; ctr := ctr s |}.
+     pend := l; preq := preq s; gone := gone s; next := next s; ctr := ctr s |}.
 Definition set_attr_of (s : st) (u : N) (a : bytes) : st :=
   {| by_tup := by_tup s; by_sid := by_sid s; by_uidx := by_uidx s; by_attr := by_attr s;
-     attr_of := <[ u := a ]> (attr_of s); pend := pend s; next := next s; ctr := ctr s |}.
+     attr_of := <[ u := a ]> (attr_of s); pend := pend s; preq := preq s; gone := gone s; next := next s; ctr := ctr s |}.
 
+Definition mark_gone (u : N) (s : st) : st :=
+  {| by_tup := by_tup s; by_sid := by_sid s; by_uidx := by_uidx s; by_attr := by_attr s; attr_of := attr_of s;
+     pend := pend s; preq := preq s; gone := u :: gone s; next := next s; ctr := ctr s |}.
+Definition add_preq (u : N) (s : st) : st :=
+  {| by_tup := by_tup s; by_sid := by_sid s; by_uidx := by_uidx s; by_attr := by_attr s; attr_of := attr_of s;
+     pend := pend s; preq := u :: preq s; gone := gone s; next := next s; ctr := ctr s |}.
+Definition has_preq (s : st) (u : N) : bool := existsb (N.eqb u) (preq s).
+Definition is_gone (s : st) (u : N) : bool := existsb (N.eqb u) (gone s).
 (* the session's Username, when it is not "" *)
 Definition get_attr (s : st) (u : N) : option bytes :=
   match attr_of s !! u with Some (b :: r) => Some (b :: r) | _ => None end.
@@ -284,7 +295,7 @@ Definition add_indexes (a : option bytes) (x : sess) (s : st) : st :=
   {| by_tup := <[ s_tup x := x ]> (by_tup s); by_sid := <[ s_sid x := x ]> (by_sid s);
      by_uidx := <[ s_uid x := x ]> (by_uidx s);
      by_attr := match a with Some k => <[ k := x ]> (by_attr s) | None => by_attr s end;
-     attr_of := attr_of s; pend := pend s; next := next s; ctr := ctr s |}.
+     attr_of := attr_of s; pend := pend s; preq := preq s; gone := gone s; next := next s; ctr := ctr s |}.
 
 (* delete(m, k) — or, with the repair, "if m[k] == sess { delete(m, k) }" *)
 Definition del_if {K} `{Countable K} (gd : bool) (x : sess) (k : K) (m : gmap K sess) : gmap K sess :=
@@ -300,7 +311,7 @@ Definition remove_indexes (v : variant) (x : sess) (s : st) : st :=
   {| by_tup := del_if g x (s_tup x) (by_tup s); by_sid := del_ifN g x (s_sid x) (by_sid s);
      by_uidx := del_ifN g x (s_uid x) (by_uidx s);
      by_attr := match get_attr s (s_uid x) with Some k => del_if g x k (by_attr s) | None => by_attr s end;
-     attr_of := attr_of s; pend := pend s; next := next s; ctr := ctr s |}.
+     attr_of := attr_of s; pend := pend s; preq := preq s; gone := gone s; next := next s; ctr := ctr s |}.
 
 Definition sid_used (m : Nmap sess) (k : N) : bool :=
   match m !! k with Some _ => true | None => false end.
@@ -365,7 +376,11 @@ Inductive op :=
 | RESTORE (sid : N) (t : tuple) (a : bytes)     (* installInMemoryState of a persisted session with Username a (start-up) *)
 | HASYNC (sid : N) (t : tuple) (a : bytes)      (* restoreFromHASync of one synced checkpoint: at RUN TIME, the id was
                                                    allocated by the HA peer *)
-| SETNEXT (n : N).                              (* harness only: position the counter *)
+| SETNEXT (n : N)                               (* harness only: position the counter *)
+| AAAREJ (x : sess)                             (* handleAAAResponse(Allowed=false) for the request of session object x:
+                                                   found by scanning c.sessions, then handleDeadPeer(sid) *)
+| VPPFAIL (x : sess).                           (* onVPPSessionCreated(err) of a queued dataplane add for session object x:
+                                                   tearDownSessionAfterVPPFailure, unless x is already torn down *)
 
 Inductive out :=
 | ONone
@@ -432,7 +447,8 @@ Definition step (v : variant) (e : env) (s : st) (o : op) : option (st * out) :=
       end
   | PADT t sid =>
       match by_sid s !! sid with
-      | Some x => if owner_ok v x t then Some (remove_indexes v x s, OTerm (s_uid x)) else Some (s, ONone)
+      | Some x => if owner_ok v x t then Some (mark_gone (s_uid x) (remove_indexes v x s), OTerm (s_uid x))
+                  else Some (s, ONone)
       | None => Some (s, ONone)
       end
   | SESS t sid =>
@@ -442,12 +458,13 @@ Definition step (v : variant) (e : env) (s : st) (o : op) : option (st * out) :=
       end
   | SETATTR t sid a =>
       match by_sid s !! sid with
-      | Some x => if owner_ok v x t then Some (set_attr_of s (s_uid x) a, OReach (s_uid x)) else Some (s, ONone)
+      | Some x => if owner_ok v x t then Some (add_preq (s_uid x) (set_attr_of s (s_uid x) a), OReach (s_uid x))
+                  else Some (s, ONone)
       | None => Some (s, ONone)
       end
   | DEAD sid =>
       match by_sid s !! sid with
-      | Some x => Some (remove_indexes v x s, OTerm (s_uid x))
+      | Some x => Some (mark_gone (s_uid x) (remove_indexes v x s), OTerm (s_uid x))
       | None => Some (s, ONone)
       end
   | RESTORE sid t a =>
@@ -469,6 +486,20 @@ Definition step (v : variant) (e : env) (s : st) (o : op) : option (st * out) :=
         let n := if N.leb (next s) sid then u16 (sid + 1) else next s in
         Some (set_next s1 n, OSynced (ctr s))
   | SETNEXT n => if N.ltb n 65536 then Some (set_next s n, ONone) else None
+  | AAAREJ x =>
+      match has_preq s (s_uid x), by_tup s !! s_tup x with
+      | true, Some y =>                        (* a request is outstanding and c.sessions still holds x *)
+          if sess_eqb y x then
+            match by_sid s !! s_sid x with     (* handleDeadPeer(sid): whatever sidIndex holds under that id *)
+            | Some z => Some (mark_gone (s_uid z) (remove_indexes v z s), OTerm (s_uid z))
+            | None => Some (s, ONone)
+            end
+          else Some (s, ONone)
+      | _, _ => Some (s, ONone)
+      end
+  | VPPFAIL x =>
+      if is_gone s (s_uid x) then Some (s, ONone)                   (* 7b3d79c: already in PhaseTerminate *)
+      else Some (mark_gone (s_uid x) (remove_indexes v x s), OTerm (s_uid x))
   end.
 
 Fixpoint run (v : variant) (e : env) (s : st) (ops : list op) : option (st * list out) :=
